@@ -461,3 +461,9 @@ SPECS["C12"]["not_covered"] = [x for x in SPECS["C12"].get("not_covered", []) if
     ["numpy itself (assumed item-level contracts)", "stream shapes beyond the nine proved ones (bounded monitor)", "concatenation of pipeline blocks over a whole stream (bounded monitor)"]
 SPECS["C05"]["level_text"] = SPECS["C05"]["level_text"].replace("'Every frame of both is preserved' for equal lengths is C12 (PipelineTranscoder) - bounded there. ",
     "'Every frame of both is preserved': lemma:pipeline_block[1x1] (C12) - the stereo block holds frame f of the left stream in channel 0 and of the right stream in channel 1 for every f below the shorter one. ")
+for _pid in ("C06", "C05", "C10"):
+    SPECS[_pid]["bounded"].append(("contracts.e2e_names", "e2e:dirs"))
+SPECS["C05"]["contracts"] += ["smpl_extract.generalized.sample:combine_stereo"]
+SPECS["C05"]["level_text"] += (". Added: the real combine_stereo (dataclass field copy modelled: dataclasses.fields / copy.copy) returns a NEW sample whose stream 0 is the left sample's "
+                               "and stream 1 the right one's, with two channels, under the given name, leaving both inputs as they were - whatever their rates and lengths")
+SPECS["C05"]["not_covered"] = ["directories of more than 3 samples as a contract"]
